@@ -261,6 +261,7 @@ var zzC05ModRem = []string{"mod", "rem"}
 func VerifC05ModRem(kind int, rep0 int, rep1 int) {
 	x, vx := zzC05Operand("x", rep0)
 	y, vy := zzC05Operand("y", rep1)
+	vrt.Carve("C05-division-by-zero-fault", vy.Sign() == 0)
 	if vy.Sign() == 0 {
 		out := zzC05Call(zzC05ModRem[kind], x, y)
 		vrt.Assert(out.class == 1, "division by zero is not a Lisp condition")
